@@ -16,6 +16,14 @@ MwsF    == {<<>>, <<"m", "n">>}
 AllHF == {HF(ch, FALSE, p, ms, mw) : ch \in ChainsF, p \in PatsF \cup {"d}/x", "d}"}, ms \in {G, P}, mw \in MwsF}
 HOpsF == {x \in AllHF : x.pat \in PatsFor(x.chain)}
          \cup {HF(ch, TRUE, "", ms, mw) : ch \in ResF, ms \in {G, P, <<>>}, mw \in MwsF}
+\* long-lived facade objects: created once (MOpsF), used by later calls - a Prefix / Resource made BEFORE a Router.Use
+\* must still see that middleware, and objects must not share state
+Ch1 == <<Pf("/api", <<"a">>)>>   Ch2 == <<Pf("/api", <<"a">>), Pf("/v", <<"b", "c">>)>>   Ch3 == <<Pf("/api", <<>>), Pf("/r/{id}", <<"b">>)>>
+MOpsF == {MkF("f1", Ch1, FALSE), MkF("f2", Ch2, FALSE), MkF("f3", Ch3, TRUE)}
+HObjF == {HFo("f1", Ch1, FALSE, p, ms, mw) : p \in {"/x", "/{id}"}, ms \in {G, P}, mw \in MwsF}
+         \cup {HFo("f2", Ch2, FALSE, p, ms, mw) : p \in {"/x", ""}, ms \in {G, P}, mw \in MwsF}
+         \cup {HFo("f3", Ch3, TRUE, "", ms, mw) : ms \in {G, P}, mw \in MwsF}
+HOpsFO == HOpsF \cup HObjF
 ROpsF == {RmF(ch, FALSE, p, ms) : ch \in ChainsF \ {<<Pf("/api/{i", <<>>)>>}, p \in {"/x", "/{id}"}, ms \in {<<>>, G}}
          \cup {RmF(ch, TRUE, "", ms) : ch \in ResF, ms \in {<<>>, G}}
 COpsF == {ClF(ch, FALSE) : ch \in ChainsF} \cup {ClF(ch, TRUE) : ch \in ResF}
@@ -29,5 +37,7 @@ MethodsF == <<"GET", "HEAD", "POST", "OPTIONS", "PUT", "TRACE">>
 UrlSetF == {UrlP("", st, ch, FALSE, p, m) : st \in BOOLEAN, ch \in {<<>>, <<Pf("/api", <<"a">>)>>, <<Pf("/api", <<"a">>), Pf("/v", <<"b", "c">>)>>}, p \in {"/x", "/{id}"},
                                             m \in {<<>>, [id |-> "5"], [zz |-> "1"]}}
            \cup {UrlP("", st, ch, TRUE, "", m) : st \in BOOLEAN, ch \in ResF, m \in {<<>>, [id |-> "5"], [id |-> "5/6"]}}
+BasesFO == BasesF \cup {<<MkF("f1", Ch1, FALSE), MkF("f2", Ch2, FALSE), MkF("f3", Ch3, TRUE)>>,
+                        <<Us(<<"u">>), MkF("f1", Ch1, FALSE), MkF("f3", Ch3, TRUE)>>}
 MirrorExtra == [base |-> FALSE, mirror |-> TRUE]
 =============================================================================
